@@ -58,6 +58,41 @@ impl<'a> Automaton<'a> {
         self.claims.push((l, sh, self.yielded.len(), mid));
     }
 
+    /// Before a removal or a mask change the pending length claims can no longer be judged
+    /// retrospectively; judge them against the model's count instead (or drop them when a removed
+    /// promotion leaves slack about its sibling promotions).
+    fn settle_claims(&mut self, rep: &mut Report) {
+        let pending: Vec<RMove> = self.legal.iter().cloned().filter(|l| (self.mask >> l.to) & 1 == 1 && !self.yielded.contains(l)).collect();
+        let slack = pending.iter().any(|l| self.excusable(l) && !self.removed_exact.contains(l) && (self.removed_masks >> l.to) & 1 == 0);
+        let expected_now = pending.iter().filter(|l| !self.excusable(l)).count();
+        if !slack {
+            let total = self.yielded.len();
+            for (l, _sh, at, mid) in self.claims.iter() {
+                rep.eval();
+                // items yielded since the claim plus what the model says is still to come
+                let actual = (total - at) + expected_now;
+                if *l != actual {
+                    let when = if *at == self.seg_start {
+                        if self.seg_start == 0 {
+                            "fresh"
+                        } else {
+                            "after-new-mask"
+                        }
+                    } else if *mid {
+                        "mid-promotion"
+                    } else {
+                        "mid-iteration"
+                    };
+                    rep.violation(&format!("C14/len/{}", when), format!("len() claimed {} when {} had been yielded; the model counts {} still to come under this mask ; {}", l, at, actual, self.ctx()));
+                    break;
+                }
+            }
+        } else {
+            rep.count("abst_len_claim_with_sibling_promotion_slack");
+        }
+        self.claims.clear();
+    }
+
     fn on_next(&mut self, r: Option<chess::ChessMove>, rep: &mut Report) {
         rep.count("op_next");
         match r {
@@ -183,6 +218,7 @@ impl C14 {
                 } else {
                     RMove::new(rng.below(64) as u8, rng.below(64) as u8, 0)
                 };
+                a.settle_claims(rep);
                 let r = g.remove_move(lib_move(m));
                 rep.count("op_remove_move");
                 if p.is_ep_capture(m) {
@@ -209,6 +245,7 @@ impl C14 {
                         }
                     }
                 };
+                a.settle_claims(rep);
                 g.remove_mask(BitBoard(mask));
                 rep.count("op_remove_mask");
                 a.trace.push(format!("remove_mask({:x})", mask));
@@ -237,6 +274,7 @@ impl C14 {
         for (i, mk_) in masks.iter().enumerate() {
             let first_plain = i == 0 && nmasks == 0;
             if !first_plain {
+                a.settle_claims(rep);
                 g.set_iterator_mask(BitBoard(*mk_));
                 rep.count("op_set_iterator_mask");
                 a.trace.push(format!("mask({:x})", mk_));
